@@ -273,6 +273,25 @@ def generators() -> Dict[str, Gen]:
         site = "kconfgen/core.py:write_cdep_tree" if fmt == "cdep_tree" else f"kconfgen/core.py:update_if_changed({fmt})"
         g.append(Gen(f"kconfgen:{fmt}", site, dest, _kconfgen(fmt, "inprocess")))
         g.append(Gen(f"kconfgen-subprocess:{fmt}", site, dest, _kconfgen(fmt, "subprocess")))
+    # the two interactive front ends: the config server's `save` request handler and menuconfig's _do_save (real functions)
+    def _server_save(k, p):
+        import kconfserver.core as ks
+
+        err = ks.handle_request(k, {"version": 3, "save": p})
+        if err:
+            raise RuntimeError(f"kconfserver save reported {err}")
+
+    def _menuconfig_save(k, p):
+        import types
+
+        from esp_menuconfig.app import MenuConfigApp
+
+        stub = types.SimpleNamespace(state=types.SimpleNamespace(kconf=k, saved=False), notify=lambda *a, **kw: None)
+        if MenuConfigApp._do_save(stub, p) is None:
+            raise RuntimeError("menuconfig _do_save failed")
+
+    g.append(Gen("kconfserver:save", "kconfserver/core.py:handle_request", "sdkconfig", _api(_server_save, "sdkconfig")))
+    g.append(Gen("menuconfig:_do_save", "esp_menuconfig/app.py:_do_save", "sdkconfig", _api(_menuconfig_save, "sdkconfig")))
     g.append(Gen("kconfgen:config:inplace", "kconfgen/core.py:update_if_changed(config)", "sdkconfig", _kconfgen("config", "inprocess", inplace=True), same_only=True))
     return {x.name: x for x in g}
 
